@@ -3,7 +3,7 @@ CONSTANTS
   Ids = {"p1","p2","p3"}
   CIds = {"p1","p2"}
   ShapeNames = {"S1"}
-  Ops = {"Create","CreateFail","CreateIOFail","Delete","UpdatePlan"}
+  Ops = {"Create","CreateFail","CreateIOFail","Delete","DeleteIOFail","UpdatePlan"}
   Groups = {1}
   InitVers = {0}
   MaxVer = 1
